@@ -40,10 +40,14 @@ CONSTANTS
   BitWidth = 8
   AllowEmpty = %(allowempty)s
   AlwaysRow = %(alwaysrow)s
+  Plans = %(plans)s
   SampleDB = %(sampledb)d
   SampleMS = %(samplems)d
+  SampleSeries = %(sampleseries)d
+  SampleMatchers = %(samplematchers)d
   OutFile = "%(outfile)s"
 %(props)s
+CONSTRAINT PlanOK
 CHECK_DEADLOCK FALSE
 '''
 
@@ -52,10 +56,15 @@ ALLRE = '{"x", "xy", "y", ".*", ".+", ""}'
 ALLOPS = '{"=", "!=", "=~", "!~"}'
 
 
-def selcfg(name, kind, kv, gl, maxseries, maxmatchers, sampledb=0, samplems=0, svals=ALLV, eqpats=ALLV, repats=ALLRE, ops=ALLOPS):
-    return {'name': name, 'kind': kind, 'kv': kv, 'gl': gl, 'maxseries': maxseries, 'maxmatchers': maxmatchers, 'svals': svals,
+def selcfg(name, kind, kv, gl, plans, sample=None, svals=ALLV, eqpats=ALLV, repats=ALLRE, ops=ALLOPS):
+    """plans: list of (max series, max matchers) checked and exported exhaustively; sample: (n databases, n matcher sets,
+    max series, max matchers) exported on top"""
+    sample = sample or (0, 0, 1, 1)
+    return {'name': name, 'kind': kind, 'kv': kv, 'gl': gl, 'maxseries': max(p[0] for p in plans), 'maxmatchers': max(p[1] for p in plans),
+            'plans': '{' + ', '.join('<<%d, %d>>' % p for p in plans) + '}', 'svals': svals,
             'eqpats': eqpats, 'repats': repats, 'ops': ops, 'allowempty': 'TRUE' if kind == 'prof' else 'FALSE',
-            'alwaysrow': 'TRUE' if kind == 'prof' else 'FALSE', 'sampledb': sampledb, 'samplems': samplems, 'outfile': name + '.json'}
+            'alwaysrow': 'TRUE' if kind == 'prof' else 'FALSE', 'sampledb': sample[0], 'samplems': sample[1], 'sampleseries': sample[2],
+            'samplematchers': sample[3], 'outfile': name + '.json', 'bounds': {'plans': plans, 'sample': sample}}
 
 
 KV2 = '{"n1", "n2"}'
@@ -65,17 +74,15 @@ WIDE = '{' + ', '.join('"w%02d"' % i for i in range(1, 11)) + '}'
 
 
 def sel_plans(tier):
+    wide = dict(svals='{"x"}', eqpats='{"x"}', repats='{}', ops='{"="}')
     if tier == 'quick':
-        return [selcfg('prom_1x2', 'prom', KV2, '{}', 1, 2), selcfg('prom_3x1', 'prom', KV2, '{}', 3, 1),
-                selcfg('prom_3x3s', 'prom', KV2, '{}', 3, 3, sampledb=10, samplems=120),
-                selcfg('prom_wide', 'prom', WIDE, '{}', 1, 10, svals='{"x"}', eqpats='{"x"}', repats='{}', ops='{"="}'),
-                selcfg('prof_1x2', 'prof', KV1, G1, 1, 2), selcfg('prof_2x1', 'prof', KV1, G1, 2, 1),
-                selcfg('prof_k2_s', 'prof', KV2, G1, 2, 2, sampledb=8, samplems=60)]
-    return [selcfg('prom_3x2', 'prom', KV2, '{}', 3, 2), selcfg('prom_1x3', 'prom', KV2, '{}', 1, 3),
-            selcfg('prom_3x3s', 'prom', KV2, '{}', 3, 3, sampledb=40, samplems=600),
-            selcfg('prom_wide', 'prom', WIDE, '{}', 1, 10, svals='{"x"}', eqpats='{"x"}', repats='{}', ops='{"="}'),
-            selcfg('prof_3x2', 'prof', KV1, G1, 3, 2), selcfg('prof_1x3', 'prof', KV1, G1, 1, 3),
-            selcfg('prof_k2_s', 'prof', KV2, G1, 3, 3, sampledb=30, samplems=400)]
+        return [selcfg('prom', 'prom', KV2, '{}', [(1, 2), (3, 1)], sample=(10, 120, 3, 3)),
+                selcfg('prom_wide', 'prom', WIDE, '{}', [(1, 10)], **wide),
+                selcfg('prof', 'prof', KV1, G1, [(1, 2), (2, 1)], sample=(8, 60, 3, 3))]
+    return [selcfg('prom', 'prom', KV2, '{}', [(3, 2), (1, 3)], sample=(40, 600, 3, 3)),
+            selcfg('prom_wide', 'prom', WIDE, '{}', [(1, 10)], **wide),
+            selcfg('prof', 'prof', KV1, G1, [(3, 2), (1, 3)], sample=(20, 300, 4, 3)),
+            selcfg('prof_k2', 'prof', KV2, G1, [(1, 2), (2, 1)], sample=(30, 400, 3, 3))]
 
 
 class Par:
@@ -198,7 +205,8 @@ def run(tier):
         par.go('cur_sane', tlc_run, 'MC_PromCursorExport.tla',
                CURSOR_CFG % dict(cb, props='INVARIANTS TypeOK RefSane\nPROPERTIES Monotone SeekLands'), 'cur_sane',
                {'cursor_ref.json': refp, 'cursor_impl.json': implp})
-        for tag, inv in (('cur_conf', 'Conforms'), ('cur_conf_ne', 'ConformsNonEmpty')):
+        confs = (('cur_conf_ne', 'ConformsNonEmpty'),) if quick else (('cur_conf', 'Conforms'), ('cur_conf_ne', 'ConformsNonEmpty'))
+        for tag, inv in confs:
             par.go(tag, tlc_run, 'MC_PromCursor.tla', CURSOR_CFG % dict(cb, props='INVARIANTS ' + inv), tag,
                    {'cex_%s.json' % tag: os.path.join(sd, 'cex_%s.json' % tag)}, 2, 600, True)
         # ---------------- TLC: selector (check + export in one run per plan) ----------------
@@ -208,7 +216,7 @@ def run(tier):
                    SEL_CFG % dict(p, props='INVARIANTS MechEqDefOnSafe MechSubset PerSeries'), p['name'],
                    {p['outfile']: os.path.join(sd, p['outfile'])}, 2 if quick else 4, 1500)
         # the property itself on the spec: mechanism = definition (a counterexample is a candidate for the real code)
-        for kind, p in (('prom', selcfg('eq_prom', 'prom', KV2, '{}', 1, 1)), ('prof', selcfg('eq_prof', 'prof', KV1, G1, 1, 1))):
+        for kind, p in (('prom', selcfg('eq_prom', 'prom', KV2, '{}', [(1, 1)])), ('prof', selcfg('eq_prof', 'prof', KV1, G1, [(1, 1)]))):
             par.go('eq_' + kind, tlc_run, 'MC_SelectorExport.tla', SEL_CFG % dict(p, props='INVARIANTS MechEqDef'), p['name'],
                    {p['outfile']: os.path.join(sd, p['outfile']), 'cex_%s.json' % p['name']: os.path.join(sd, 'cex_%s.json' % p['name'])}, 1, 600, True)
         res = par.wait()
@@ -222,7 +230,7 @@ def run(tier):
 
         # ---------------- cursor: replay on the real iterator ----------------
         cands = []
-        for tag in ('cur_conf', 'cur_conf_ne'):
+        for tag, _ in confs:
             p = os.path.join(sd, 'cex_%s.json' % tag)
             if res[tag]['violated']:
                 if not os.path.exists(p):
@@ -273,7 +281,7 @@ def run(tier):
             if stats.get('cases', 0) != ncases[p['name']]:
                 raise vlib.Infra('driver ran %s of %d exported cases of %s' % (stats.get('cases'), ncases[p['name']], p['name']))
             total_cases += stats.get('cases', 0)
-            sel_cov[p['name']] = {'bounds': {k: p[k] for k in ('kv', 'gl', 'maxseries', 'maxmatchers', 'sampledb', 'samplems')}, 'stats': stats,
+            sel_cov[p['name']] = {'bounds': dict(p['bounds'], kv=p['kv'], gl=p['gl']), 'stats': stats,
                                   'tlc': res['sel_' + p['name']]}
             sel_cov[p['name']]['sample'] = samples[:1]
             for sig, v in vs.items():
@@ -321,7 +329,7 @@ def run(tier):
                'traces_validated_against_impl': cur['stats']['sequences'] + total_cases + pq['stats'].get('queries', 0),
                'samples': [cur.get('sample'), (sel_cov[plans[0]['name']].get('sample') or [None])[0], (pq.get('samples') or [None])[0]],
                'exhaustive': True,
-               'cursor': {'tlc': [res[k] for k in ('cur_sane', 'cur_conf', 'cur_conf_ne')], 'bounds': cb, 'replay': cur['stats'], 'tables': cur['tables'],
+               'cursor': {'tlc': [res[k] for k in ['cur_sane'] + [c[0] for c in confs]], 'bounds': cb, 'replay': cur['stats'], 'tables': cur['tables'],
                           'transcription_mismatches': len(cur['unfaithful']), 'tlc_counterexamples_replayed': len(cur.get('candidates') or [])},
                'selector': sel_cov, 'selector_cases_run': total_cases,
                'promql': pq['stats'],
@@ -336,8 +344,9 @@ def run(tier):
 
 
 def n_big(p):
-    return p['maxseries'] * p['maxmatchers'] >= 3 and not p['sampledb']
+    return p['name'] != 'prom_wide'
 
 
 def safe(s):
-    return ''.join(ch if ch.isalnum() else '_' for ch in s)[:110]
+    s = s.replace('!=', 'ne').replace('!~', 'nre').replace('=~', 're').replace('=', 'eq').replace('>', 'gt').replace('<', 'lt')
+    return ''.join(ch if ch.isalnum() else '_' for ch in s)[:120]
